@@ -293,6 +293,15 @@ pub fn run_c07(out: &mut Out, rng: &mut Rng, tier: Tier) -> String {
                                 w.swap_elems(out, 1, ('p', 0, 0), ('p', (br - 1) as isize, (bc - 1) as isize));
                                 w.eq(out, 0, 1);
                             }
+                            if ar * ac > 0 {
+                                // an element that is not equal to itself (like a NaN): the matrix is then
+                                // equal to nothing — not to a matrix with the same payloads, not to itself
+                                w.poke(out, 0, ar - 1, ac - 1, "nan");
+                                if (ar, ac) == (br, bc) { w.poke(out, 1, ar - 1, ac - 1, "nan"); }
+                                w.eq(out, 0, 1);
+                                w.eq(out, 1, 0);
+                                if w.eq(out, 0, 0) != Some(false) { out.oracle_fail("a matrix holding an element that is not equal to itself compares equal to itself"); }
+                            }
                             w.drop_reg(out, 0);
                             w.drop_reg(out, 1);
                             if ar * ac > 1 { out.nontrivial(); }
